@@ -70,6 +70,7 @@ type queue struct {
 	ps       int
 	sip, sid int  // position saved by op 9
 	saved    bool // ... and still valid (no discard / reset since)
+	n        int  // operation counter: selects among the equivalent methods of the queue (typed / signed / string variants)
 }
 
 func newQueue() *queue {
@@ -116,7 +117,24 @@ func (qq *queue) apply(o op) (obs sx.T, panicked bool) {
 		qq.saved = false
 		return sx.L{}, false
 	case 4:
-		bs, err := q.Bytes(o.a)
+		// Bytes(n), or one of its equivalents: String(n), and for n = 1 Byte()
+		qq.n++
+		var bs []byte
+		var err error
+		switch {
+		case o.a == 1 && qq.n%3 == 0:
+			var b byte
+			b, err = q.Byte()
+			if err == nil {
+				bs = []byte{b}
+			}
+		case o.a >= 0 && qq.n%3 == 1:
+			var str string
+			str, err = q.String(o.a)
+			bs = []byte(str)
+		default:
+			bs, err = q.Bytes(o.a)
+		}
 		if errClass(err) == 2 {
 			bs = nil
 		}
@@ -133,28 +151,102 @@ func (qq *queue) apply(o op) (obs sx.T, panicked bool) {
 		// Read must have filled the caller's buffer with the n bytes it reports
 		return sx.L{sx.I(errClass(err)), sx.B(buf[:n])}, false
 	case 6:
+		// unsigned or signed typed read of the width (the signed result is shown as its unsigned bit pattern)
+		qq.n++
+		signed := qq.n%2 == 0
 		var v uint64
 		var err error
 		switch o.a {
 		case 1:
-			var x uint8
-			x, err = q.Uint8()
-			v = uint64(x)
+			if signed {
+				var x int8
+				x, err = q.Int8()
+				v = uint64(uint8(x))
+			} else {
+				var x uint8
+				x, err = q.Uint8()
+				v = uint64(x)
+			}
 		case 2:
-			var x uint16
-			x, err = q.Uint16()
-			v = uint64(x)
+			if signed {
+				var x int16
+				x, err = q.Int16()
+				v = uint64(uint16(x))
+			} else {
+				var x uint16
+				x, err = q.Uint16()
+				v = uint64(x)
+			}
 		case 4:
-			var x uint32
-			x, err = q.Uint32()
-			v = uint64(x)
+			if signed {
+				var x int32
+				x, err = q.Int32()
+				v = uint64(uint32(x))
+			} else {
+				var x uint32
+				x, err = q.Uint32()
+				v = uint64(x)
+			}
 		case 8:
-			v, err = q.Uint64()
+			if signed {
+				var x int64
+				x, err = q.Int64()
+				v = uint64(x)
+			} else {
+				v, err = q.Uint64()
+			}
 		}
 		return sx.L{sx.I(errClass(err)), sx.U64(v)}, false
 	case 7:
+		// WriteBytes(data), or an equivalent: the typed write of that width (unsigned / signed), WriteString, Write
 		qq.ps = o.a
-		err := q.WriteBytes(o.data)
+		qq.n++
+		var err error
+		d := o.data
+		switch k := qq.n % 4; {
+		case k == 0 && len(d) == 1:
+			if qq.n%8 == 0 {
+				err = q.WriteInt8(int8(d[0]))
+			} else if qq.n%8 == 4 {
+				err = q.WriteByte(d[0])
+			} else {
+				err = q.WriteUint8(d[0])
+			}
+		case k == 0 && len(d) == 2:
+			x := uint16(d[0]) | uint16(d[1])<<8
+			if qq.n%8 == 0 {
+				err = q.WriteInt16(int16(x))
+			} else {
+				err = q.WriteUint16(x)
+			}
+		case k == 0 && len(d) == 4:
+			x := uint32(d[0]) | uint32(d[1])<<8 | uint32(d[2])<<16 | uint32(d[3])<<24
+			if qq.n%8 == 0 {
+				err = q.WriteInt32(int32(x))
+			} else {
+				err = q.WriteUint32(x)
+			}
+		case k == 0 && len(d) == 8:
+			var x uint64
+			for i := 7; i >= 0; i-- {
+				x = x<<8 | uint64(d[i])
+			}
+			if qq.n%8 == 0 {
+				err = q.WriteInt64(int64(x))
+			} else {
+				err = q.WriteUint64(x)
+			}
+		case k == 1:
+			err = q.WriteString(string(d))
+		case k == 2:
+			var n int
+			n, err = q.Write(d)
+			if err == nil && n != len(d) {
+				return sx.L{sx.I(2)}, false
+			}
+		default:
+			err = q.WriteBytes(d)
+		}
 		if err != nil {
 			return sx.L{sx.I(2)}, false
 		}
